@@ -25,7 +25,7 @@ try:
             if rep["ops"] and rep["kind"] == "implementation-violates-property" and p == meta["breaks_property"]:
                 open(os.path.join(ROOT, "corpus", f"{p}_{name}.ops"), "w").write("\n".join(rep["ops"]) + "\n")
         meta["checks"][p] = {"exit": rc, "lines": line, "summary": summary, "replay": rep, "wall_s": round(time.time() - t0, 1)}
-        print(p, "exit", rc, line, summary, (rep or {}).get("ops"), (rep or {}).get("observed", "")[:160])
+        print(p, "exit", rc, line, summary, (rep or {}).get("ops"), ((rep or {}).get("observed") or "")[:160])
 finally:
     sh("git checkout -- .", "/repo")
 meta["detected_by"] = [p for p, r in meta["checks"].items() if r["exit"] != 0]
